@@ -70,7 +70,7 @@ func (f *InitializeInstance) Call(s *slip.Scope, args slip.List, depth int) slip
 type defaultInitializeInstanceCaller struct{}
 
 func (defaultInitializeInstanceCaller) Call(s *slip.Scope, args slip.List, depth int) slip.Object {
-	if fi := slip.FindFunc("shared-initialize"); fi != nil {
+	if fi := slip.FindFunc("shared-initialize", &Pkg); fi != nil {
 		args = append(slip.List{args[0], slip.True}, args[1:]...)
 		_ = fi.Apply(s, args, depth+1)
 	}
